@@ -87,15 +87,7 @@ static const int INPLACE_OPS[] = { I44_TRANSLATE, I44_TRANSLATE, I44_SCALE, I44_
 static const double C09_ROT_K1 = 6, C09_ROT_K2 = 6;
 
 // scale factor for the rotation-entry term of the bound when the parameter type S differs from T (see the top of this file)
-template <class T, class S> static inline double rot_scale_ (double, bool, std::true_type) { return 1; }
-template <class T, class S> static inline double rot_scale_ (double angle_abs, bool angle_rounded_to_T, std::false_type)
-{
-    double es = FInfo<S>::eps (), et = FInfo<T>::eps ();
-    double r  = es > et ? es / et : 1.0;
-    if (angle_rounded_to_T && es < et) r += angle_abs;
-    return r;
-}
-template <class T, class S> static inline double rot_scale (double angle_abs, bool angle_rounded_to_T) { return rot_scale_<T, S> (angle_abs, angle_rounded_to_T, std::is_integral<S> ()); }
+// (rot_scale<T, S> is defined in c09_util.h: the builder section uses it too)
 
 // Generator policy of the original sub-checks (inplace_*, inplace_mixed_*): the draw sequence is exactly the one the
 // saved replays were recorded with.  inplace_structured_* uses InplaceGenNear (further down) with the same checks.
